@@ -161,6 +161,50 @@ def PT.unsqueeze (t : PT) (dim : Nat) : PT := { t with vaxes := (t.vaxes.take di
 /-- `permute(dims)` -/
 def PT.permute (t : PT) (dims : List Nat) : PT := { t with vaxes := dims.map (fun i => t.vaxes[i]?.getD unitAxis) }
 
+/-! ### equal / allclose (C13): the counting argument of PatternedTensor.equal, at the level of
+the sets of backed cells.  The library finds the overlap of the two patterns by unification; the model
+takes the overlap to be the intersection of the two images (what unification computes on well-typed
+operands — checked per case by the harness, since the implementation's verdict must match). -/
+
+/-- (virtual index tuple, value) of every physical element -/
+def PT.cells (t : PT) : List (List Nat × Ext) :=
+  (assigns (t.paxes.map (·.2))).zipIdx.map (fun p =>
+    (t.vaxes.map (Axis.eval (envOf t.paxes p.1)), t.physical[p.2]?.getD t.default))
+
+/-- `torch.isclose(a, b, rtol, atol, equal_nan)`: `|a - b| ≤ atol + rtol·|b|`; infinities only equal to themselves -/
+def isclose (rtol atol : Rat) (equalNan : Bool) : Ext → Ext → Bool
+  | .nan, .nan => equalNan
+  | .nan, _ => false
+  | _, .nan => false
+  | .fin a, .fin b => decide ((if a - b < 0 then b - a else a - b) ≤ atol + rtol * (if b < 0 then -b else b))
+  | .pinf, .pinf => true
+  | .ninf, .ninf => true
+  | _, _ => false
+
+/-- the decision procedure of `PatternedTensor.equal`/`allclose`, parameterised by the elementwise test
+(`cmp a b`: self-side element `a` against other-side element `b`) -/
+def PT.compareModel (cmp : Ext → Ext → Bool) (t u : PT) : Bool :=
+  if t.vshape != u.vshape then false
+  else
+    let ct := t.cells
+    let cu := u.cells
+    let overlap := ct.filter (fun p => cu.any (·.1 == p.1))
+    if !(overlap.all (fun p => match cu.find? (·.1 == p.1) with | some q => cmp p.2 q.2 | none => true)) then false
+    else
+      -- selfok = self.physical ~ other.default, otherok = self.default ~ other.physical; overlap marked ok
+      let selfok := ct.all (fun p => cmp p.2 u.default || cu.any (·.1 == p.1))
+      let otherok := cu.all (fun q => cmp t.default q.2 || ct.any (·.1 == q.1))
+      let n := numel t.vshape + overlap.length
+      (decide (n ≤ ct.length + cu.length) || cmp t.default u.default) && selfok && otherok
+
+def PT.equalModel (t u : PT) : Bool := PT.compareModel Ext.eqIEEE t u
+def PT.allcloseModel (rtol atol : Rat) (equalNan : Bool) (t u : PT) : Bool :=
+  PT.compareModel (isclose rtol atol equalNan) t u
+
+/-- the specification: elementwise test of the dense tensors -/
+def PT.compareSpec (cmp : Ext → Ext → Bool) (t u : PT) : Bool :=
+  t.vshape == u.vshape && (t.dense.zip u.dense).all (fun p => cmp p.1 p.2)
+
 /-! ### protocol -/
 
 partial def parseAxis : Parser Axis := do
@@ -179,6 +223,10 @@ def parsePT : Parser PT := do
   pure ⟨ph, pa, va, d⟩
 
 def handle : List String → Option (Except String String)
+  | "C13.compare" :: rest => some do
+      let (t, u, rtol, atol, en) ← Tok.run (do
+        let t ← parsePT; let u ← parsePT; let r ← Tok.rat; let a ← Tok.rat; let e ← Tok.bool; pure (t, u, r, a, e)) rest
+      pure s!"{showBool (t.equalModel u)} {showBool (PT.compareSpec Ext.eqIEEE t u)} {showBool (t.allcloseModel rtol atol en u)} {showBool (PT.compareSpec (isclose rtol atol en) t u)} {showBool (t.wf && u.wf)}"
   | "C06.dense" :: rest => some do
       let t ← Tok.run parsePT rest
       pure s!"{showBool t.wf} {showBool t.strideOk} {showList toString t.vshape} {showList toString t.dense}"
